@@ -6,3 +6,4 @@ CONSTANT Side = "client"
 CONSTANT Mms = 0
 INVARIANT Emit
 CHECK_DEADLOCK FALSE
+CONSTANT Pipelined = FALSE
